@@ -89,7 +89,7 @@ def build_and_run(ctx, cases, cfgs, opts):
     batches = []
     for t, lst in by_t.items():
         lst.sort(key=lambda c: (len(c["N"]) + len(c["D"]), c["N"], c["D"]))
-        k = 6
+        k = 1 if (opts.get("full32") and t in ("i32", "u32")) else 6      # a 2^32 sweep per instance: one instance per program, no stragglers
         for i in range(0, len(lst), k):
             batches.append(lst[i:i + k])
     jobs = []
